@@ -241,6 +241,15 @@ class NetSvcCase:
         self.impl = self.ns.NetworkResourceService(ext_device='eth0', ext_ip='172.31.81.67', ext_mtu=9000,
                                                    ext_speed=10000)
         self.phase = 'starting'
+        if pre and self.rng.random() < 0.2:
+            # the bridge went away while the service was down (network restart): initialize() has to build
+            # it again, the requests of the running containers are still there and are replayed afterwards
+            # (with its ports: the host side of every container's veth pair is gone as well)
+            for dev in sorted(self.k.links):
+                if dev in ('tm0', 'tm1', 'br0') or self.k.links[dev]['type'] == 'veth':
+                    if dev in self.k.links:
+                        self.k._del_link(dev)       # pylint: disable=protected-access
+            self.ctx.count('netsvc_restarts_bridge_gone')
         st, val = self.call('initialize', self.impl.initialize, self.svcdir)
         post = self.listing()
         self.log.append(dict(op='initialize', status=st))
